@@ -106,7 +106,40 @@ class Schema:
         return "\n".join(self.driver_lines()[1:-1])
 
 
-def gen(rng, idx=0, n_ent=None, n_types=None, p_kw=0.15, p_multi=0.3, allow_kw=PY_KEYWORDS + PY_BUILTINS):
+def _is_ancestor(ents, anc, n):
+    return any(p == anc or _is_ancestor(ents, anc, p) for p in ents[n].supers)
+
+
+def _c3(ents, n, memo):
+    if n in memo:
+        return memo[n]
+    seqs = []
+    for p in ents[n].supers:
+        lp = _c3(ents, p, memo)
+        if lp is None:
+            memo[n] = None
+            return None
+        seqs.append(list(lp))
+    seqs.append(list(ents[n].supers))
+    out = [n]
+    while any(seqs):
+        seqs = [q for q in seqs if q]
+        for q in seqs:
+            h = q[0]
+            if not any(h in r[1:] for r in seqs):
+                break
+        else:
+            memo[n] = None
+            return None
+        out.append(h)
+        seqs = [[x for x in q if x != h] for q in seqs]
+    memo[n] = out
+    return out
+
+
+def gen(rng, idx=0, n_ent=None, n_types=None, p_kw=0.15, p_multi=0.3, allow_kw=PY_KEYWORDS + PY_BUILTINS, admissible=False):
+    """admissible=True: every declared supertype order is one Python accepts (no listed supertype is an ancestor of
+    another listed one, and a C3 linearisation exists) - diamonds and deep multiple inheritance still occur"""
     s = Schema(f"s{idx}")
     used = set()
     pool = list(allow_kw)
@@ -154,6 +187,12 @@ def gen(rng, idx=0, n_ent=None, n_types=None, p_kw=0.15, p_multi=0.3, allow_kw=P
             k = 1 if rng.random() > p_multi else min(len(prev), rng.randrange(2, 4))
             supers = rng.sample(prev, k)
         s.entities.append(Entity(n, supers))
+        if admissible and len(supers) > 1:
+            ents = {e.name: e for e in s.entities}
+            e = s.entities[-1]
+            e.supers = [x for x in supers if not any(y != x and _is_ancestor(ents, x, y) for y in supers)]
+            while len(e.supers) > 1 and _c3(ents, n, {}) is None:
+                e.supers = e.supers[:-1]
     typenames = [t.name for t in s.types if t.body[0] != "aggregate"]
     for e in s.entities:
         for _ in range(rng.choice([0, 1, 1, 2, 3])):
